@@ -157,6 +157,36 @@ def certFor (st : Style) (k : Key) (t : TlsKey) (n : Nonce) : Option Cert :=
               uris := (match st with | .new => [⟨true, 0, pubToCN k⟩] | .old => []),
               cn := st.name k, ext := some (.sig k n (st.name k)) }
 
+/-! ### the verifier as a list of tests (specification) -/
+
+/-- the tests in source order -/
+def Check.order : List Check :=
+  [.oneRaw, .parse, .oneCert, .x509, .expected, .sigPresent, .cnDecodes, .cnIsExpected, .signature]
+
+/-- does test `ch`, looked at on its own, object to what the peer presented?  Every test after the
+first looks at the first certificate only. -/
+def objects (s : Suite) (them : Option Key) (nonce : Nonce) (raw : List Cert) (ch : Check) : Bool :=
+  match ch, raw.head? with
+  | .oneRaw, _ => raw.length != 1
+  | _, none => false
+  | .parse, some c => !c.parses || c.count == 0
+  | .oneCert, some c => c.count != 1
+  | .x509, some c => !x509ok c
+  | .expected, some c => (match them with | some t => !expectedOk t c | none => false)
+  | .sigPresent, some c => c.ext.isNone
+  | .cnDecodes, some c => (pubFromCN s c.cn).isNone
+  | .cnIsExpected, some c =>
+    (match them, pubFromCN s c.cn with | some t, some pub => pub != t | _, _ => false)
+  | .signature, some c =>
+    (match c.ext, pubFromCN s c.cn with
+      | some sg, some pub => !schnorrVerify pub nonce c.cn sg
+      | _, _ => false)
+
+def Check.name : Check → String
+  | .oneRaw => "oneRaw" | .parse => "parse" | .oneCert => "oneCert" | .x509 => "x509"
+  | .expected => "expected" | .sigPresent => "sigPresent" | .cnDecodes => "cnDecodes"
+  | .cnIsExpected => "cnIsExpected" | .signature => "signature"
+
 /-! ### time: the validity window (tls.go:166-167, crypto/x509 `Verify`) -/
 
 /-- `certMaker.get`: `NotBefore = now - 5 min`, `NotAfter = now + 2 h` (seconds on the maker's clock).
@@ -424,6 +454,22 @@ def urisOf (t : String) : Option (List Uri) :=
 def suiteOf : String → Option Suite
   | "ed" => some ⟨true⟩ | "g1" => some ⟨false⟩ | "g2" => some ⟨false⟩ | _ => none
 
+/-- the suites of the direct verifier operations: the three of `hs` and P256 (whose `String()` form
+of a point is no hex string either) -/
+def suiteOfV : String → Option Suite
+  | "p256" => some ⟨false⟩ | t => suiteOf t
+
+/-- the certificate's window relative to the honest node's clock (seconds) -/
+def timeOf : String → Option Validity
+  | "ok" => some (validityAt (-300) 7200 0)
+  | "expired" => some (validityAt (-10800) (-3600) 0)
+  | "future" => some (validityAt 3600 10800 0)
+  | "justexpired" => some (validityAt (-7200) (-90) 0)
+  | "endsoon" => some (validityAt (-7200) 90 0)
+  | "justfuture" => some (validityAt 90 7200 0)
+  | "juststarted" => some (validityAt (-90) 7200 0)
+  | _ => none
+
 /-- `hs role=… suite=… tlsv=… op=… them=… ncerts=… der=… signedby=… time=… uris=… cn=… sig=…
 nonce=… id=… via=… live=… decoy=…`: one handshake of a deviating peer with the honest node, in either role.  The
 answer is `hs=<ok|fail> disp=<label of the key attached to the dispatched message|->`. -/
@@ -516,6 +562,68 @@ def step (s : State) (toks : List String) : State × String :=
         pure (if ok then s!"hs=ok disp={match out with | (i, _) :: _ => labelOf i.pub | [] => "-"}"
               else "hs=fail disp=-")
       | _ => none
+    (s, r.getD "bad-op")
+  | "vrf" :: rest =>
+    -- `vrf role=… suite=… op=… them=… ncerts=… der=… signedby=… time=… uris=… cn=… sig=… decoy=…`: the closure
+    -- `makeVerifier` returns, called directly (no crypto/tls in between) with the described raw certificates.
+    -- Answer: which test refused (`vrf=<name>`, `vrf=ok`), and the key the router would read from the first
+    -- certificate's common name after an accepted handshake
+    let r : Option String := do
+      let m ← kv rest
+      if m.length ≠ 12 then none
+      let role ← get m "role"
+      let suite ← (← get m "suite") |> suiteOfV
+      let op ← (← get m "op") |> keyOf
+      let ncerts ← (← get m "ncerts").toNat?
+      let der ← get m "der"
+      let signedby ← get m "signedby"
+      let time ← get m "time"
+      let uris ← (← get m "uris") |> urisOf
+      let cn ← (← get m "cn") |> nameOf
+      let sg ← (← get m "sig") |> sigOf
+      let themT ← get m "them"
+      let decoyT ← get m "decoy"
+      let decoy ← (if decoyT = "none" then some none else (nameOf decoyT).map some)
+      let (parses, count) ← (match der with
+        | "ok" => some (true, 1) | "bad" => some (false, 0) | "two" => some (true, 2) | _ => none)
+      let tls : TlsKey := 10 + op
+      let signer ← (match signedby with | "self" => some tls | "other" => some 99 | _ => none)
+      let validity ← timeOf time
+      let c : Cert := { parses := parses, count := count, tlsKey := tls, signedBy := signer,
+                        validity := validity, uris := uris, cn := cn, ext := sg }
+      if ncerts > 3 then none
+      let raw := (match decoy with
+        | some n => [{ c with uris := [], cn := n, ext := none, signedBy := tls, validity := .ok, parses := true, count := 1 }]
+        | none => []) ++ List.replicate ncerts c
+      let them ← (match role with
+        | "dial" => if themT = "h" then none else (keyOf themT).map some
+        | "accept" => if themT = "-" then some none else none
+        | _ => none)
+      pure (match verifyPeer suite them (.hon 1) raw with
+        | some ch => s!"vrf={ch.name} key=-"
+        | none => s!"vrf=ok key={match peerKey suite raw with | some k => labelOf k | none => "-"}")
+    (s, r.getD "bad-op")
+  | "hv" :: rest =>
+    -- `hv role=<dial|accept> suite=… them=<v|a|o|-> nonce=<cur|stale|short>`: the certificate the honest
+    -- holder of `v` makes (`newCertMaker` + `certMaker.get`) for the nonce it is handed, looked at by the
+    -- verifier another honest node made (for `them`, or for anybody in the accepting role)
+    let r : Option String := do
+      let m ← kv rest
+      if m.length ≠ 4 then none
+      let role ← get m "role"
+      let suite ← (← get m "suite") |> suiteOfV
+      let themT ← get m "them"
+      let them ← (match role with
+        | "dial" => if themT = "h" then none else (keyOf themT).map some
+        | "accept" => if themT = "-" then some none else none
+        | _ => none)
+      let n ← (match (← get m "nonce") with
+        | "cur" => some (Nonce.hon 1) | "stale" => some (Nonce.hon 0) | "short" => some Nonce.badSize | _ => none)
+      pure (match certFor .new 1 11 n with
+        | none => "nocert"
+        | some c => match verifyPeer suite them (.hon 1) [c] with
+          | some ch => s!"vrf={ch.name} key=-"
+          | none => s!"vrf=ok key={match peerKey suite [c] with | some k => labelOf k | none => "-"}")
     (s, r.getD "bad-op")
   | "honestcert" :: rest =>
     -- `honestcert role=<dial|accept> suite=… tlsv=… nonce=<ok|short|none|two>`: what the honest node
